@@ -7,7 +7,9 @@ package c02
 import (
 	"fmt"
 	"strings"
+	"time"
 
+	imodels "github.com/influxdata/influxdb/models"
 	"github.com/influxdata/kapacitor"
 
 	"kapverif/rt"
@@ -51,6 +53,7 @@ var catalogue = []Shape{
 	{"three", []kapacitor.DBRP{dA, dC}, []From{{Meas: "m1", RP: "rp2"}, {}, {Meas: "m1"}}},
 	{"gb", []kapacitor.DBRP{dC}, []From{{GB: true}, {Meas: "m2", GB: true, Pred: "b"}}},
 	{"dbC", []kapacitor.DBRP{dC, dD}, []From{{Meas: "m1", DB: "d1"}, {DB: "d2"}}},
+	{"dbrp", []kapacitor.DBRP{dA, dC, dD}, []From{{DB: "d1", RP: "rp2"}, {Meas: "m2", DB: "d2", RP: "rp1", Pred: "a"}}},
 }
 
 // Script renders the TICKscript of a shape for task id: one
@@ -123,4 +126,13 @@ func (o Op) key() string {
 	default:
 		return o.Kind + ":" + o.T
 	}
+}
+
+// mustPoint builds an influx point (private copy: the shared helper moved).
+func mustPoint(name string, tags map[string]string, fields map[string]any, t time.Time) imodels.Point {
+	p, err := imodels.NewPoint(name, imodels.NewTags(tags), fields, t)
+	if err != nil {
+		panic(err)
+	}
+	return p
 }
